@@ -14,7 +14,8 @@ RULE = ("matrix {basic,buffered,async} client x server (server via Acceptor/Acce
         "timeout {-1,0,50 ms} per synchronous side x who sends/receives first x call style {sequential program, polling "
         "round-robin} x recv segmentation {none,1,7,100 bytes} x shared/separate drivers, real OpenSSL 3 over loopback under the "
         "virtual clock; unlimited-timeout sides run on their own thread. Plus: TLS 1.2, payloads 1 byte .. >16 KiB "
-        "(multi-record), >9 records in one Send, congested full-duplex transfer with tiny socket buffers, short writes, "
+        "(multi-record), >9 records in one Send, congested full-duplex transfer with tiny socket buffers, a congested asynchronous "
+        "multi-record sender (partial DriverSend + retry from the moved buffer), short writes, "
         "plain-TCP peers (HTTP text) in both roles. thorough enumerates the matrix completely, quick samples it. "
         "non-trivial = a case in which a handshake was driven to completion and payload crossed in both directions, "
         "or a non-TLS peer was rejected; distinct op scripts.")
@@ -123,6 +124,12 @@ def specials(rng):
     # congested full-duplex transfer with zero/limited timeouts (ee81033), polling style
     for T in (0, 50):
         o = case_ops("basic", "buffered", T, T, "s", "s", "poll", 0, rng.randrange(10**6), 60000, 60000, extra="bufs=8192")
+        out.append(o)
+    # congested ASYNC sender (F14, fixed by 91eb40d): a multi-record buffer against tiny socket buffers and a slowly polling
+    # reader, so that one DriverSend completes a record and has the next one refused (WANT_WRITE after progress); the
+    # retry then comes from the buffer DriverSend has erased the sent prefix from
+    for srv, style, csz in (("basic", "poll", 60000), ("buffered", "seq", 60000), ("async", "seq", 100000)):
+        o = case_ops("async", srv, 0, 0, "s", "r", style, 0, rng.randrange(10**6), csz, 50, extra="bufs=8192")
         out.append(o)
     # short writes of the kernel
     for cli, srv in (("basic", "async"), ("async", "basic"), ("buffered", "buffered")):
